@@ -18,7 +18,7 @@ def run():
         out = os.path.join(sub("out"), "load.%d.ndjson" % i)
         if os.path.exists(out):
             os.remove(out)
-        rc, txt, _ = go_overlay_test("v2", V2_SOURCES, "^TestVerifLoadReplay$", timeout=3000,
+        rc, txt, _ = go_overlay_test("v2", V2_SOURCES, "^TestVerifLoadReplay$", timeout=7000,
                                      env={"VERIF_IN": gen.outpath, "VERIF_OUT": out, "VERIF_SHARD": str(i), "VERIF_SHARDS": str(NSH)})
         return txt, read_ndjson(out)
     with ThreadPoolExecutor(NSH) as ex:
